@@ -529,3 +529,34 @@ def run(repo: Repo, rep: Report) -> None:  # noqa: F811
                 filtered = [norm(c) for g_ in n.generators for c in g_.ifs]
                 rep.ob("C03.i-turtle-collection-validator", mod, cname + ".isValidList", "all properties of a cell are compared (%s)" % norm(n)[:60], not filtered,
                        "unfiltered" if not filtered else "the comparison skips properties matching `%s`: a cell carrying such a triple is still abbreviated to ( ... ) and the triple is dropped" % filtered[0], node=n)
+
+
+_run_base3 = run
+
+
+def run(repo: Repo, rep: Report) -> None:  # noqa: F811
+    _run_base3(repo, rep)
+    rep.rule("C03.n-relative-form-resolves-back",
+             "a serializer that writes an IRI relative to the base by cutting the base off its front (uri.replace(base, '', 1)) keeps that form only if resolving it against the base "
+             "gives the IRI back (a comparison with urljoin(base, relative) / a join function), or delegates to a relativize() that does: the cut of <http://e/a/bc> against "
+             "<http://e/a/b> is `c` = <http://e/a/c>; a remainder `c:d` reads as an absolute IRI; against a base ending in `#` the remainder `x` resolves to a sibling path", floor=2)
+    mods = [repo.mod("rdflib.serializer")] + [repo.mod(m) for m in sorted(repo.modules) if m.startswith("rdflib.plugins.serializers.")]
+    n_rel = 0
+    for mod in mods:
+        for q, f in mod.functions():
+            if q.split(".")[-1] != "relativize":
+                continue
+            n_rel += 1
+            cuts = [c for c in own_nodes(f) if isinstance(c, ast.Call) and isinstance(c.func, ast.Attribute) and c.func.attr == "replace" and len(c.args) >= 2 and isinstance(c.args[1], ast.Constant) and c.args[1].value == ""]
+            builds = [c for c in own_nodes(f) if isinstance(c, ast.Call) and norm(c.func) == "URIRef"]
+            delegates = any(isinstance(c, ast.Call) and norm(c.func) in ("super().relativize", "Serializer.relativize") for c in own_nodes(f))
+            checks = any(isinstance(c, ast.Compare) and isinstance(c.ops[0], ast.Eq) for c in own_nodes(f)) and any(isinstance(c, ast.Call) and norm(c.func).split(".")[-1] in ("urljoin", "join") for c in own_nodes(f))
+            if not builds:
+                ok = delegates or not cuts
+                rep.ob("C03.n-relative-form-resolves-back", mod, q, "delegates the relative form", ok, "to a checked relativize()" if ok else "cuts the base off without building or delegating", node=f)
+                continue
+            rep.ob("C03.n-relative-form-resolves-back", mod, q, builds[0], checks or delegates,
+                   "kept only if it resolves back" if (checks or delegates) else
+                   "the base is cut off the front of the IRI and the remainder is written as a relative reference without checking that it resolves back: with base <http://e/a/b>, <http://e/a/bc> is written <c> and read as <http://e/a/c>", node=builds[0])
+    if n_rel < 2:
+        raise AnalysisError("expected Serializer.relativize and RecursiveSerializer.relativize")
